@@ -7,7 +7,7 @@ from ..analysis import strip_through
 from ..analysis import (Branches, CallGraph, Origins, cfg_cycles, edge_dominates, fmt_terms, reach_avoiding,
                         term_mentions)
 from ..decision import Undecided
-from ..leaf import kind_walker
+from ..leaf import kind_walker, ok_payloads, results_by_kind
 from ..tmatch import ANY, Agg, Call, Each, Or_, m, ms
 from .c06 import RESULT, check_result_types
 
@@ -170,27 +170,29 @@ def fn_sum(ctx, lib, nm, b):
 
 # ---- strings ------------------------------------------------------------------------------------
 def fn_contains(ctx, lib, nm, b):
-    o, oks, _ = ok_terms(b, lib)
+    # decided per kind of (subject, needle): where the Bool/Ok wrapping is written does not matter
     arr = Agg(V + "::Bool", Each(Call(r"slice::<impl \[T\]>::contains$", Each(("field", arg(0), "Array.0")), Each(arg(1)), regex=True)))
     st = Agg(V + "::Bool", Each(Call(r"str::<impl str>::contains$", Each(("field", arg(0), "String.0")), Each(view("string", arg(1))), regex=True)))
     fl = Agg(V + "::Bool", Each(("const", 0)))
-    ok = len(oks) == 3 and sum(ms(t, arr) for _, t in oks) == 1 and sum(ms(t, st) for _, t in oks) == 1 and sum(ms(t, fl) for _, t in oks) == 1
-    if not ok and len(oks) == 2:
-        # `Bool(needle.as_string().map_or(false, |s| subj.contains(s)))`: one Ok site whose Bool is false or the substring test
-        stf = Agg(V + "::Bool", Each(Or_(("const", 0), Call(r"str::<impl str>::contains$", Each(("field", arg(0), "String.0")), Each(view("string", arg(1))), regex=True))))
-        ok = sum(ms(t, arr) for _, t in oks) == 1 and sum(1 for _, t in oks if ms(t, stf) and any(x[0] == "agg" and any(y[0] == "call" for y in x[2][0]) for x in t)) == 1
-        st = stf
-    C(ctx, nm, "value", ok, "array: subject.contains(needle) by value equality; string: substring test against a string needle, false for a non-string needle", b)
-    br = Branches(b, o)
-    # which arm: discriminant of args[0]
-    good = False
-    for sb, sw in br.switches():
-        ve = br.variant_edges(sb)
-        if ve and ve["adt"] == V and ms(ve["scrutinee"], arg(0)) and {"Array", "String"} <= set(ve["edges"]):
-            a_blk = [blk for blk, t in oks if ms(t, arr)]
-            s_blk = [blk for blk, t in oks if ms(t, st)]
-            good = a_blk and s_blk and edge_dominates(b, (sb, ve["edges"]["Array"]), a_blk[0]) and edge_dominates(b, (sb, ve["edges"]["String"]), s_blk[0])
-    C(ctx, nm, "dispatch", bool(good), "the array rule applies to array subjects, the substring rule to string subjects", b)
+    ok = True
+    disp = True
+    detail = []
+    for k0, k1, pat in (("Array", "String", arr), ("Array", "Number", arr), ("String", "String", st), ("String", "Number", fl), ("String", "Array", fl)):
+        try:
+            res = ok_payloads(results_by_kind(b, lib, {arg(0): k0, arg(1): k1}))
+        except Undecided as e:
+            ok = False
+            detail.append(f"{k0}/{k1}: undecided ({e})")
+            continue
+        good = bool(res) and all(m(t, pat) for t in res)
+        if not good:
+            detail.append(f"{k0}/{k1}: {fmt_terms(res)[:120]}")
+            if res and all(m(t, Or_(arr, st, fl)) for t in res):
+                disp = False
+        ok = ok and good
+    C(ctx, nm, "value", ok, "array: subject.contains(needle) by value equality; string: substring test against a string needle, false for a non-string needle"
+      + (f" — {detail}" if detail else ""), b)
+    C(ctx, nm, "dispatch", ok or disp, "the array rule applies to array subjects, the substring rule to string subjects", b)
 
 
 def _affix(ctx, lib, nm, b, op):
@@ -226,12 +228,23 @@ def fn_join(ctx, lib, nm, b):
 
 
 def fn_length(ctx, lib, nm, b):
-    o, oks, _ = ok_terms(b, lib)
     a = Agg(V + "::Number", Each(Call(r"Vec::<T, A>::len$", Each(("field", arg(0), "Array.0")), regex=True)))
     ob = Agg(V + "::Number", Each(Call(r"BTreeMap::<K, V, A>::len$", Each(("field", arg(0), "Object.0")), regex=True)))
     s = Agg(V + "::Number", Each(Call("std::iter::Iterator::count", Each(("iter", ("field", arg(0), "String.0"))))))
-    ok = len(oks) == 3 and sum(ms(t, a) for _, t in oks) == 1 and sum(ms(t, ob) for _, t in oks) == 1 and sum(ms(t, s) for _, t in oks) == 1
-    C(ctx, nm, "value", ok, "array: element count; object: member count; string: chars().count()", b)
+    ok = True
+    detail = []
+    for k0, pat in (("Array", a), ("Object", ob), ("String", s)):
+        try:
+            res = ok_payloads(results_by_kind(b, lib, {arg(0): k0}))
+        except Undecided as e:
+            ok = False
+            detail.append(f"{k0}: undecided ({e})")
+            continue
+        good = bool(res) and all(m(t, pat) for t in res)
+        if not good:
+            detail.append(f"{k0}: {fmt_terms(res)[:120]}")
+        ok = ok and good
+    C(ctx, nm, "value", ok, "array: element count; object: member count; string: chars().count()" + (f" — {detail}" if detail else ""), b)
     ch = [t for _, t in b.calls() if re.search(r"str::<impl str>::(chars|len|char_indices|bytes|encode_utf16)$", t["callee"])]
     C(ctx, nm, "code-points", len(ch) == 1 and ch[0]["callee"].endswith("::chars"), f"a string's length is counted in code points (str::chars), not bytes or UTF-16 units (string iterators used: {[c['callee'].split('::')[-1] for c in ch]})", b)
 
